@@ -541,7 +541,7 @@ def xop_mkreal(node, op):
 
 def xop_applyinst(node, op):
     """['applyinst', None, inst_slot, expr_slot] -> repr of the result or '!Type'."""
-    _, _, islot, eslot = op
+    _, _, islot, eslot = op[:4]
     inst, how = node.get(islot)
     e = node.get(eslot)
     try:
@@ -551,7 +551,7 @@ def xop_applyinst(node, op):
             r = inst.visit(e)
         else:
             r = inst(e)
-        return repr(r)
+        return _result_digest(r) if len(op) > 4 and op[4] == "sig" else repr(r)
     except BaseException as ex:  # noqa: B036
         if _is_dispatch_error(ex):
             return "!DispatchError"
@@ -560,16 +560,28 @@ def xop_applyinst(node, op):
 
 def xop_applyreal(node, op):
     """['applyreal', None, alg_name, expr_slot] -> digest of the result or '!Type'."""
-    _, _, name, eslot = op
+    _, _, name, eslot = op[:4]
     e = node.get(eslot)
     f = _REAL_ALGS[name]
     try:
         r = f(e)
-        return repr(r)
+        return _result_digest(r) if len(op) > 4 and op[4] == "sig" else repr(r)
     except BaseException as ex:  # noqa: B036
         if _is_dispatch_error(ex):
             return "!DispatchError"
         return "!" + type(ex).__name__
+
+
+def _result_digest(r):
+    """A digest of an algorithm's result that does not depend on the counts of the indices /
+    labels the algorithm created (nodes with different histories of use hand out different
+    counts): the renumbering-invariant signature for expressions, repr otherwise."""
+    if isinstance(r, Expr):
+        try:
+            return type(r).__name__ + ":" + ops.expr_signature(r)
+        except BaseException:  # noqa: B036
+            return type(r).__name__ + ":unsigned"
+    return repr(r)
 
 
 _DISPATCH_FRAMES = {
